@@ -3,7 +3,6 @@ package erange
 import (
 	"fmt"
 	"go/types"
-	"math/big"
 	"sort"
 	"strings"
 
@@ -29,7 +28,7 @@ const scalarRel = "curve/scalar"
 
 // ScalarExpectedMin is the vacuity threshold of the scalar rule per run
 // (about 90% of the obligations measured in one 64-bit configuration).
-var ScalarExpectedMin = 0
+var ScalarExpectedMin = 650 // measured: 728 in one 64-bit configuration
 
 // scalarRow is one row of the scalar pre/post table.
 type scalarRow struct {
@@ -332,5 +331,3 @@ func CheckScalar64(run *report.Run, p *load.Program, ruleID string) {
 	}
 	run.Extra["scalar64_montgomery_pair_bounds_"+p.Cfg.ID] = ps
 }
-
-var _ = big.NewInt
